@@ -73,7 +73,7 @@ def numeric_dates(d):
     return {as_utc, as_local}
 
 
-def keys_for(kind, form, private):
+def keys_for(kind, form, private, family="jws"):
     from joserfc.jwk import KeySet
     jwk = scen.key(kind)
     k = A.jkey(jwk, "dict", private=(private or jwk["kty"] == "oct"))
@@ -81,6 +81,11 @@ def keys_for(kind, form, private):
         return KeySet([k]), rjwk.thumbprint(rjwk.public_of(jwk))
     if form == "key":
         return k, None
+    if form == "set of every key type":
+        # one suitable key, then keys of the other types (the library's pick among what it takes for suitable is the last candidate, see h_roundtrip)
+        others = [A.jkey(o, "dict", private=(private or o["kty"] == "oct")) for o in (A.oct_jwk(32, "hash", 13), A.rsa_jwk("rsa_1536_a"), A.ec_full("P-384", 13), A.okp_jwk("X448", 13))
+                  if o["kty"] != jwk["kty"] and not (family == "jwe" and {o["kty"], jwk["kty"]} == {"EC", "OKP"})]     # ECDH-ES takes EC and OKP keys alike
+        return KeySet([k] + others), rjwk.thumbprint(rjwk.public_of(jwk))
     other = A.jkey(scen.key(kind, 1), "dict", private=(private or jwk["kty"] == "oct"))
     ks = KeySet([k, other])
     kid = rjwk.thumbprint(rjwk.public_of(jwk))
@@ -92,7 +97,7 @@ def keys_for(kind, form, private):
 def h_roundtrip(ctx):
     from joserfc import jwt, jwe
     family, alg, kind = ctx.choose("transport", TRANSPORTS)
-    kform = ctx.choose("key_form", ["key", "set", "callable", "set1"])
+    kform = ctx.choose("key_form", ["key", "set", "callable", "set1", "set of every key type"])
     hdr_kind = ctx.choose("header", ["plain", "typ-explicit", "typ-JWT", "typ-empty-string", "extra-members", "application-member"])
     what_claims = ctx.choose("claims_kind", ["json", "datetime"])
     # an application registry is usually a subclass; an application encoder usually knows a few extra types and nothing about dates
@@ -157,7 +162,7 @@ def h_roundtrip(ctx):
         reg = (ApplicationRegistry if reg_kind == "registry-subclass" else base_cls)(algorithms=allow)
     else:
         reg = None
-    ekey, kid = keys_for(kind, kform, private=(family == "jws"))
+    ekey, kid = keys_for(kind, kform, private=(family == "jws"), family=family)
     kw = {"registry": reg} if reg else {"algorithms": [alg]}
     if both:
         kw["algorithms"] = [alg]
@@ -171,10 +176,12 @@ def h_roundtrip(ctx):
                 return super().default(o)
         ekw["encoder_cls"] = ApplicationEncoder
     from .c14 import seam
-    seam.install()   # the pick from a key set takes the first candidate
+    seam.install()   # the pick from a key set takes the first candidate (the last one where only one member suits the algorithm)
+    seam.chooser = (lambda seq: seq[-1]) if kform == "set of every key type" else None
     try:
         r = call(jwt.encode, header, claims, ekey, **ekw)
     finally:
+        seam.chooser = None
         seam.uninstall()
     vs = []
     what = f"{family}/{alg} key as {kform}, header {hdr_kind}, registry given as {reg_kind}, encoder {enc_kind}, claims {str(claims)[:120]}"
@@ -183,7 +190,7 @@ def h_roundtrip(ctx):
         return Outcome("encode-failed", [viol(f"jwt.encode fails: {tag}", f"{what}: {r.exc!r}")], nontrivial=(tag, hdr_kind, repr(claims)[:80]))
     if header != given_header:
         vs.append(viol(f"jwt.encode alters the caller's header ({hdr_kind}, key as {kform}, {family})", f"{given_header} -> {header}"))
-    dkey, _ = keys_for(kind, kform, private=(family == "jwe"))
+    dkey, _ = keys_for(kind, kform, private=(family == "jwe"), family=family)
     dkw = dict(kw)
     if dec_kind.endswith("its-own-constructor"):
         class ApplicationDecoder(json.JSONDecoder):
